@@ -166,7 +166,7 @@ func flipCase(s string) string {
 
 func TestC13(t *testing.T) {
 	hx.Main(t, "C13", func(r *hx.Run) {
-		r.Rule = "clean workflow from the workflow-syntax model (optionally with 1-3 malformed placeholders seeded into sibling values) x EVERY fixed-key mapping x {foreign key: fresh name | key of another section | letter-case variant of an own key | fresh name after a key that is broken in itself (empty or a sequence); duplicate of EVERY existing key in turn; removal of each mandatory key} and EVERY user-named mapping x {duplicate: same spelling | other letter case where names are case-insensitive}. Oracle from the model: syntax-check diagnostic exactly at the inserted key (at the item for schedule elements), at the repetition for duplicates, >=1 new syntax-check diagnostic for a removed mandatory key, and all diagnostics of the base still present. Non-trivial: every mutation; distinct = (section, mutation kind, key, base clean or seeded)."
+		r.Rule = "clean workflow from the workflow-syntax model (optionally with 1-3 malformed placeholders seeded into sibling values) x EVERY fixed-key mapping x {foreign key: fresh name | key of another section | letter-case variant of an own key | near miss of an accepted key (<key>-ignore, <key>s, ...) | fresh name after a key that is broken in itself (empty or a sequence); duplicate of EVERY existing key in turn; removal of each mandatory key} and EVERY user-named mapping x {duplicate: same spelling | other letter case where names are case-insensitive}. Oracle from the model: syntax-check diagnostic exactly at the inserted key (at the item for schedule elements), at the repetition for duplicates, >=1 new syntax-check diagnostic for a removed mandatory key, and all diagnostics of the base still present. Non-trivial: every mutation; distinct = (section, mutation kind, key, base clean or seeded)."
 		r.Assumptions = []string{"fixed key names are case-sensitive (GitHub's syntax), so a letter-case variant is a foreign key", "case-insensitive user-named mappings asserted: jobs, inputs, secrets, outputs, with, matrix rows; env/permissions/services only for same-spelling duplicates"}
 		others := allSectionKeys()
 		secCov := map[string]int64{}
@@ -242,6 +242,15 @@ func TestC13(t *testing.T) {
 					}
 					if len(m.Keys) > 0 {
 						fks = append(fks, flipCase(m.Keys[mi%len(m.Keys)].Val))
+					}
+					// near misses of accepted keys: with a suffix / prefix that other keys of the syntax carry
+					if ks := sec.Keys; len(ks) > 0 {
+						base := ks[(mi*7)%len(ks)]
+						for _, nm := range []string{base + "-ignore", base + "s", strings.TrimSuffix(base, "-ignore") + "-only", strings.TrimSuffix(base, "s")} {
+							if !own[nm] && nm != "" && nm != base {
+								fks = append(fks, nm)
+							}
+						}
 					}
 					for fi, fkName := range fks {
 						idx := (mi + fi) % (len(m.Keys) + 1)
